@@ -8,11 +8,12 @@ Line-protocol driver for C01.  Every request runs the SAME generic definitions t
   first-argmax cell per channel;
 * at `Float` with `Float.exp`: the values (sent as IEEE bit patterns).
 
-requests
-  cm    σ stride H W  <n> (x y)*n
-  multi σ stride H W  numInstances nNodes <nAnimals> (x y)*(nAnimals·nNodes)
-  cent  σ stride H W  numInstances <n> (x y)*n
-reply   `C h w rect | z_1 … z_C | a_1 … a_C | v …`   (z: 1 = channel not identically zero;
+requests (always a whole batch of S samples; the batch-level model definitions are called)
+  cm    σ stride H W  S n (x y)*(S·n)                                   confmapsBatch
+  cm4   σ stride H W  S nInst nNodes (x y)*(S·nInst·nNodes)             confmaps4 (rank-4 flattening)
+  multi σ stride H W  numInstances nNodes S nAnimals (x y)*(S·nAnimals·nNodes)   multiConfmapsBatch
+  cent  σ stride H W  numInstances S n (x y)*(S·n)                      centroidConfmapsBatch
+reply   per sample, joined by ` ; `:  `C h w rect | z_1 … z_C | a_1 … a_C | v …`   (z: 1 = channel not identically zero;
         a: flat row-major index of the first maximum, -1 on an empty channel; v row-major)
 -/
 open SleapVerif SleapVerif.Proto SleapVerif.Confmaps SleapVerif.Scalar SleapVerif.Grid
@@ -42,6 +43,9 @@ def report (mq : List (List (List Rat))) (mf : List (List (List Float))) (h w : 
   let vals := (mf.flatten.flatten).map floatStr
   s!"{mq.length} {hh} {ww} {if rect then 1 else 0} | {" ".intercalate zs} | {" ".intercalate am} | {" ".intercalate vals}"
 
+def reportB (mq : List (List (List (List Rat)))) (mf : List (List (List (List Float)))) (h w : Nat) : String :=
+  " ; ".intercalate ((mq.zip mf).map fun (q, f) => report q f h w)
+
 def request : P String := do
   let op ← tok
   let sigma ← rat
@@ -55,22 +59,39 @@ def request : P String := do
   let sf := ratToFloat sigma
   match op with
   | "cm" =>
-    let kps ← listOf point
-    pure <| report (confmaps surr castQ sigma stride H W kps)
-      (confmaps Float.exp castF sf stride H W (kps.map ptF)) h w
+    let S ← nat
+    let n ← nat
+    let pts ← rep (S * n) point
+    let batch := if n = 0 then List.replicate S [] else chunks n pts
+    pure <| reportB (confmapsBatch surr castQ sigma stride H W batch)
+      (confmapsBatch Float.exp castF sf stride H W (batch.map (·.map ptF))) h w
+  | "cm4" =>
+    let S ← nat
+    let ni ← nat
+    let nn ← nat
+    let pts ← rep (S * ni * nn) point
+    let animals := if nn = 0 then List.replicate (S * ni) [] else chunks nn pts
+    let batch := if ni = 0 then List.replicate S [] else chunks ni animals
+    pure <| reportB (batch.map (confmaps4 surr castQ sigma stride H W))
+      (batch.map fun b => confmaps4 Float.exp castF sf stride H W (b.map (·.map ptF))) h w
   | "multi" =>
     let ni ← nat
     let nn ← nat
+    let S ← nat
     let na ← nat
-    let pts ← rep (na * nn) point
-    let animals := if nn = 0 then List.replicate na [] else chunks nn pts
-    pure <| report (multiConfmaps surr castQ sigma stride H W ni nn animals)
-      (multiConfmaps Float.exp castF sf stride H W ni nn (animals.map (·.map ptF))) h w
+    let pts ← rep (S * na * nn) point
+    let animals := if nn = 0 then List.replicate (S * na) [] else chunks nn pts
+    let batch := if na = 0 then List.replicate S [] else chunks na animals
+    pure <| reportB (multiConfmapsBatch surr castQ sigma stride H W ni nn batch)
+      (multiConfmapsBatch Float.exp castF sf stride H W ni nn (batch.map (·.map (·.map ptF)))) h w
   | "cent" =>
     let ni ← nat
-    let cs ← listOf point
-    pure <| report (centroidConfmaps surr castQ sigma stride H W ni cs)
-      (centroidConfmaps Float.exp castF sf stride H W ni (cs.map ptF)) h w
+    let S ← nat
+    let n ← nat
+    let pts ← rep (S * n) point
+    let batch := if n = 0 then List.replicate S [] else chunks n pts
+    pure <| reportB (centroidConfmapsBatch surr castQ sigma stride H W ni batch)
+      (centroidConfmapsBatch Float.exp castF sf stride H W ni (batch.map (·.map ptF))) h w
   | _ => failure
 
 def handle (line : String) : String :=
